@@ -358,6 +358,15 @@ class HItem(BatchItemBase):
         self.completions = 0
         self.bid = batch.bid
         self.on_computed.subscribe(self._on_done)
+        self.hit = False
+        if key != "spawn" and rt.item_fault(self) == "hit":
+            # answered on the spot (a local-cache hit): the request still sits in its batch - and counts for the
+            # batch's priority - but nobody has to wait for the flush on its account
+            self.hit = True
+            v = ("iv", kind, key, inst)
+            rt.item_done[inst] = ("val", v)
+            rt.n_item_hits = getattr(rt, "n_item_hits", 0) + 1
+            self.set_value(v)
 
     def _on_done(self, _f):
         self.completions += 1
@@ -660,6 +669,8 @@ class HarnessRT(object):
                 self.excs[e.tag] = e
                 d = exc_desc(e)
                 for rest in items[idx:]:
+                    if getattr(rest, "hit", False):
+                        continue
                     self.item_done[rest.inst] = ("exc", d)
                     self.item_flush[rest.inst] = batch.bid
                 for prev in items[:idx]:
@@ -668,6 +679,8 @@ class HarnessRT(object):
                         self.item_done[prev.inst] = ("exc", d)
                 self.emit("flush_raise", batch.bid)
                 raise e
+            if getattr(it, "hit", False):
+                continue  # answered when it was created
             self.item_flush[it.inst] = batch.bid
             if mode == "nestedsync":
                 # the flush body itself calls asynq code synchronously, which waits on another batch kind
